@@ -66,7 +66,9 @@ def field_array_loop():
         return [('encoded-so-far ++ encoding-of-the-rest == encoding-of-all', t, exact),
                 ('the-rest-is-encodable-iff-all-is', wire.items_ok(whole(ip, fr), lg) == wire.items_ok(rem, lg), True)]
 
-    return CutSeqFor(seq_of, bind, havoc, inv, doc='join(data) ++ enc_items(rem) == enc_items(all); variant |rem|')
+    ann = CutSeqFor(seq_of, bind, havoc, inv, doc='join(data) ++ enc_items(rem) == enc_items(all); variant |rem|')
+    ann.binds = ('data', 'value')
+    return ann
 
 
 def field_array_contract():
@@ -137,7 +139,9 @@ def field_table_loop():
                 fr.locals['__table_entries__'] = seq_of(ip, iterable)
             return CutSeqFor.run_for(self, ip, node, fr, iterable)
 
-    return Loop(seq_of, bind, havoc, inv, doc='join(data) ++ enc_entries(rem) == enc_entries(sorted entries); variant |rem|')
+    ann = Loop(seq_of, bind, havoc, inv, doc='join(data) ++ enc_entries(rem) == enc_entries(sorted entries); variant |rem|')
+    ann.binds = ('data', 'value')
+    return ann
 
 
 def field_table_contract():
@@ -378,6 +382,7 @@ def table_loop(kind):
             off = st.fresh_int('offset')
             st.assume(off >= 4)
             fr.locals['offset'] = SInt(off)
+            fr.locals['__offset_at_iteration_start__'] = SInt(off)
             fr.locals['data'] = SOpaque('dict' if kind == 'table' else 'list', st.fresh('decoded_so_far', sym.ObjS))
             return
         ws = g
@@ -411,7 +416,14 @@ def table_loop(kind):
         if not is_int(fl.get('offset')):
             return [('offset-is-an-integer', False, True)]
         if g is None:
-            return [('offset-past-the-length-prefix', le(4, fl['offset']), True)]
+            out = [('offset-past-the-length-prefix', le(4, fl['offset']), True)]
+            start = fl.get('__offset_at_iteration_start__')
+            if fl.get('__stage__', 0) == 1 and start is not None:
+                # C08 progress: a completed iteration read at least one octet that exists, so there are at most
+                # len(value) iterations whatever the declared length says
+                out.append(('the-iteration-consumed-an-octet-that-exists',
+                            conj(lt(start, st.rope_len_term(fl['value'])), lt(start, fl['offset'])), True))
+            return out
         ws = g
         stage = fl.get('__stage__', 0)
         rem = ws if stage == 0 else wire.seq_tail(fl['__rem__'])
@@ -437,7 +449,9 @@ def table_loop(kind):
     def variant(ip, fr):
         return mk_int(I(fr.locals[endvar]) - I(fr.locals['offset']))
 
-    return CutWhile(0, havoc, inv, variant, doc='remaining octets == encoding of the remaining entries; variant end - offset')
+    ann = CutWhile(0, havoc, inv, variant, doc='remaining octets == encoding of the remaining entries; variant end - offset')
+    ann.binds = ('offset', 'data', 'value', endvar)
+    return ann
 
 
 def container_decoder(kind, total=False):
